@@ -10,10 +10,10 @@ Open Scope Z_scope.
 Ltac Zify.zify_post_hook ::= Z.to_euclidean_division_equations.
 
 (** nested binds are flattened before stepping *)
-Lemma kbind_assoc {A B C} (r : kres A) (f : A -> kres B) (g : B -> kres C) :
+Lemma kbind_assoc4 {A B C} (r : kres A) (f : A -> kres B) (g : B -> kres C) :
   kbind (kbind r f) g = kbind r (fun x => kbind (f x) g).
 Proof. destruct r; reflexivity. Qed.
-Ltac np_step' := first [np_step | rewrite kbind_assoc; cbv beta].
+Ltac np_step' := first [np_step | rewrite kbind_assoc4; cbv beta].
 Ltac np_auto' := repeat np_step'.
 
 (* ================================================================================================ *)
@@ -195,6 +195,12 @@ Qed.
 Example ListOffsetArray_reduce_nonlocal_nextshifts_64_example :
   reduce_nonlocal_nextshifts [9;9] [9;9;9] [9;9;9] [0; 2; 3] 2 [0] [0; 0] 2 3 [0; 2; 1]
   = KOk ([0; 1], [0; 0; 0], [0; 0; 0]).
+Proof. vm_compute. reflexivity. Qed.
+
+(** the bound "every list length <= maxcount" is necessary (here maxcount = 1 and the only list has 2 items):
+    the callers obtain maxcount from _maxcount_offsetscopy_64 on the same offsets *)
+Example ListOffsetArray_reduce_nonlocal_nextshifts_64_long_list_refuted :
+  reduce_nonlocal_nextshifts [9] [9;9] [9;9] [0; 2] 1 [0] [0] 1 2 [0; 1] = KOob.
 Proof. vm_compute. reflexivity. Qed.
 
 (* ================================================================================================ *)
